@@ -11,6 +11,8 @@ import (
 	ds "github.com/ipfs/go-datastore"
 	query "github.com/ipfs/go-datastore/query"
 	crdt "github.com/ipfs/go-ds-crdt"
+	host "github.com/libp2p/go-libp2p-core/host"
+	peer "github.com/libp2p/go-libp2p-core/peer"
 	rpc "github.com/libp2p/go-libp2p-gorpc"
 	pubsub "github.com/libp2p/go-libp2p-pubsub"
 )
@@ -52,6 +54,22 @@ func (d *vrfRecDs) Delete(k ds.Key) error { d.dels = append(d.dels, k); return n
 func (d *vrfRecDs) Sync(ds.Key) error     { return nil }
 func (d *vrfRecDs) Close() error          { return nil }
 
+// the libp2p host: only its ID matters here
+type vrfHookHost struct {
+	host.Host
+	id peer.ID
+}
+
+func (h *vrfHookHost) ID() peer.ID { return h.id }
+
+func vrfHookPeer(i int) peer.ID {
+	p, err := peer.Decode([]string{"QmZHKZDavkvNfA9gSAg7HALv8jF7BJaKjUc9U2LSuvUySB", "QmP63DkAFEnDYNjDYBpyNDfttu1fvUw99x1brscPzpqmmq"}[i])
+	if err != nil {
+		panic(err)
+	}
+	return p
+}
+
 type vrfHookTracker struct {
 	tracked, untracked []*api.Pin
 }
@@ -80,7 +98,7 @@ var vrfHookCids = []string{
 func VrfC02Hooks() {
 	ctx, cancel := context.WithCancel(context.Background())
 	css := &Consensus{ctx: ctx, cancel: cancel, config: &Config{ClusterName: "vrf"}, rpcReady: make(chan struct{}, 1),
-		pubsub: &pubsub.PubSub{}}
+		pubsub: &pubsub.PubSub{}, host: &vrfHookHost{id: vrfHookPeer(0)}}
 	trk := &vrfHookTracker{}
 	srv := rpc.NewServer(nil, "vrf")
 	if err := srv.RegisterName("PinTracker", trk); err != nil {
@@ -105,6 +123,15 @@ func VrfC02Hooks() {
 	}
 	pin := api.PinCid(c)
 	pin.Name = vrf_nondet_string("name")
+	// allocated to this peer, to another one, or to nobody in particular: the
+	// tracker hears about every entry (it is the tracker that decides what a pin
+	// allocated elsewhere means - e.g. unpinning what it held before a re-allocation)
+	switch vrf_choice("allocated_to", 3) {
+	case 1:
+		pin.Allocations = []peer.ID{vrfHookPeer(0)}
+	case 2:
+		pin.Allocations = []peer.ID{vrfHookPeer(1)}
+	}
 	pin.ReplicationFactorMin, pin.ReplicationFactorMax = vrf_nondet_int("rmin"), vrf_nondet_int("rmax")
 	// documented: factors are stored as 32-bit integers
 	vrf_assume(vrf_and(vrf_and(pin.ReplicationFactorMin >= -1<<31, pin.ReplicationFactorMin < 1<<31), vrf_and(pin.ReplicationFactorMax >= -1<<31, pin.ReplicationFactorMax < 1<<31)))
@@ -115,6 +142,7 @@ func VrfC02Hooks() {
 		if len(trk.tracked) == 1 {
 			got := trk.tracked[0]
 			vrf_assert(got.Cid.Equals(c), "C02.hooks.tracker-told-the-same-cid")
+			vrf_assert(len(got.Allocations) == len(pin.Allocations) && (len(got.Allocations) == 0 || got.Allocations[0] == pin.Allocations[0]), "C02.hooks.tracker-told-the-stored-pin")
 			vrf_assert(vrf_and(got.Name == pin.Name, vrf_and(got.ReplicationFactorMin == pin.ReplicationFactorMin, got.ReplicationFactorMax == pin.ReplicationFactorMax)), "C02.hooks.tracker-told-the-stored-pin")
 		}
 	} else {
